@@ -456,6 +456,7 @@ def lazy_rule(ctx):
 def run(ctx):
     from . import e2e_rules as _e2e
 
+    ctx.attempt(_e2e.heterogeneous_rule, ctx, 'R11.E2')
     ctx.attempt(_e2e.laws_rule, ctx, 'R11.E1')
     ctx.level = "proof"
     ctx.explanation = (
